@@ -197,6 +197,7 @@ fn main() {
         "replay" => cmd_replay(&args),
         "run" => cmd_run(&args),
         "determinism" => cmd_determinism(&args),
+        "triage" => cmd_triage(&args),
         _ => {
             eprintln!("usage: raftsim check <ID> [--tier quick|thorough] [--runs N] | replay <file> | run --profile P --index I | determinism --profile P --runs N");
             2
@@ -220,6 +221,48 @@ fn cmd_run(args: &BTreeMap<String, String>) -> i32 {
     }
     if let Some(v) = &r.violation {
         println!("violation {} {} node {} step {}: {}", v.prop, v.check, v.node, v.step, v.detail);
+        if args.contains_key("verbose") {
+            let (c, t) = r.trace.as_ref().unwrap();
+            let tail: usize = args.get("verbose").and_then(|s| s.parse().ok()).unwrap_or(60);
+            println!("cluster voters {:?} learners {:?} initial ({}, {})", c.voters, c.learners, c.initial_index, c.initial_term);
+            println!("node cfg 1: {:?}", c.nodes.values().next().unwrap());
+            let mut w = World::new(c.clone());
+            let mut last_line = String::new();
+            for (i, a) in t.iter().enumerate() {
+                let res = w.apply(a);
+                if i + tail >= t.len() {
+                    let watch: Option<u64> = args.get("watch").and_then(|s| s.parse().ok());
+                    if watch.is_none() { println!("#{} {}", i + 1, serde_json::to_string(a).unwrap()); }
+                    for x in w.nodes.values() {
+                        if !x.started { continue; }
+                        if let Some(wn) = watch {
+                            if x.id != wn { continue; }
+                            let o = &x.obs;
+                            let line = format!("n{} {} {:?} t{} lead{} commit{} applied{} pers{} last{}({}) first{} unst@{}+{} snap{} | sm{} q{} out{} wq{} | dur t{} c{} last{} trunc{} app{}",
+                                x.id, if x.running() {"up"} else {"DOWN"}, o.role, o.term, o.leader_id, o.commit, o.applied, o.persisted, o.last_index, o.last_term, o.first_index,
+                                o.unst_offset, o.unst_len, o.snap_index, x.sm.applied, x.apply_q.len(), x.outstanding.len(), x.disk.wq.len(),
+                                x.disk.durable.hs.term, x.disk.durable.hs.commit, x.disk.durable.last_index(), x.disk.durable.trunc_index, x.disk.durable.app.applied);
+                            let line = format!("{} prs {:?} gc{}", line, o.prs.iter().map(|p| (p.id, p.matched, p.next_idx, p.group)).collect::<Vec<_>>(), o.group_commit);
+                            if last_line != line {
+                                println!("#{} {}\n      {}", i + 1, serde_json::to_string(a).unwrap(), line);
+                                last_line = line;
+                            }
+                            continue;
+                        }
+                        let o = &x.obs;
+                        println!("      n{} {} {:?} t{} v{} lead{} commit{} applied{} pers{} last{}({}) first{} unst@{}+{} snap{} | sm{} q{} out{} wq{} | dur t{} v{} c{} last{} trunc{} app{} | conf {:?}/{:?} L{:?}",
+                            x.id, if x.running() {"up"} else {"DOWN"}, o.role, o.term, o.vote, o.leader_id, o.commit, o.applied, o.persisted, o.last_index, o.last_term, o.first_index,
+                            o.unst_offset, o.unst_len, o.snap_index, x.sm.applied, x.apply_q.len(), x.outstanding.len(), x.disk.wq.len(),
+                            x.disk.durable.hs.term, x.disk.durable.hs.vote, x.disk.durable.hs.commit, x.disk.durable.last_index(), x.disk.durable.trunc_index, x.disk.durable.app.applied,
+                            o.conf.voters, o.conf.outgoing, o.conf.learners);
+                    }
+                    if watch.is_some() { if res.is_err() { break; } continue; }
+                    let fl: Vec<String> = w.flights.iter().map(|(k, f)| format!("{}>{}#{}:{:?}(t{} i{} c{} e{}{})", k.f, k.t, k.s, f.msg.get_msg_type(), f.msg.term, f.msg.index, f.msg.commit, f.msg.entries.len(), if f.msg.reject {" rej"} else {""})).collect();
+                    println!("      flights: {}", fl.join(" "));
+                }
+                if res.is_err() { break; }
+            }
+        }
         if args.contains_key("dump") {
             let (c, t) = r.trace.as_ref().unwrap();
             println!("{}", serde_json::to_string(&c).unwrap());
@@ -520,6 +563,25 @@ fn cmd_check(args: &BTreeMap<String, String>) -> i32 {
     if violations > 0 {
         println!("VIOLATION property={id} replay={replay_path}");
         return 1;
+    }
+    0
+}
+
+fn cmd_triage(args: &BTreeMap<String, String>) -> i32 {
+    let pid = args.get("profile").cloned().unwrap_or_else(|| "C01".into());
+    let spec = profiles::spec(&pid);
+    let seed = args.get("seed").and_then(|s| s.parse().ok()).unwrap_or_else(env_seed);
+    let runs: u64 = args.get("runs").and_then(|s| s.parse().ok()).unwrap_or(2000);
+    let results = run_batch(&spec.profile, seed, 0, runs, 16, false);
+    let mut classes: BTreeMap<(String, String), (u64, u64, String)> = BTreeMap::new();
+    for r in &results {
+        if let Some(v) = &r.violation {
+            let e = classes.entry((v.check.to_string(), v.sig.clone())).or_insert((0, r.index, v.detail.clone()));
+            e.0 += 1;
+        }
+    }
+    for ((c, s), (n, idx, d)) in &classes {
+        println!("{n:6} {c} [{s}] first run {idx}: {d}");
     }
     0
 }
